@@ -49,7 +49,7 @@ func init() {
 		Parallel: 8,
 		Min: func(t core.Tier) map[string]int64 {
 			return map[string]int64{"js_calls": 30000, "probe_calls": 8000, "value_map_calls": 8000, "error_calls": 3000, "node_calls": 3000, "vm_reuse_observed": 500,
-				"arg_name_reused_with_other_value": 5000, "concurrent_histories": 200, "e2e_records": 2000, "e2e_ancestor_comparisons": 1000}
+				"arg_name_reused_with_other_value": 5000, "concurrent_histories": 200, "e2e_records": 1000, "e2e_ancestor_comparisons": 1000}
 		},
 	})
 }
